@@ -1110,6 +1110,16 @@ fn run_case(c: &Case, out: &mut dyn Write) {
 include!("h_ingress_inc/gen.rs");
 include!("h_ingress_inc/oracle.rs");
 
+/// which oracle classes belong to which property ("" = all)
+fn class_of_property(class: &str, prop: &str) -> bool {
+    let c10 = class.starts_with("c10-") || class == "ipv6-loopback-source-fallback";
+    match prop {
+        "c11" => !c10,
+        "c10" => c10 || class == "ingress-panicked",
+        _ => true,
+    }
+}
+
 fn main() {
     if std::env::var("INGRESS_LOUD").is_err() {
         quiet_panics();
@@ -1138,7 +1148,8 @@ fn main() {
         "count" => {
             writeln!(out, "{}", product_size()).unwrap();
         }
-        "oracle" => {
+        "oracle" | "oracle-c11" | "oracle-c10" => {
+            let prop = sub.strip_prefix("oracle-").unwrap_or("");
             let mut fails: Vec<String> = vec![];
             let mut stats: BTreeMap<String, u64> = BTreeMap::new();
             let scns = gen_scenarios(seed ^ 0x00c1_1c10, n, &tier, "o");
@@ -1150,6 +1161,9 @@ fn main() {
                 oracle_scn(&id, &s, &mut now, &mut stats);
                 for f in now {
                     let class = f.split("::").next().unwrap().trim().to_string();
+                    if !class_of_property(&class, prop) {
+                        continue;
+                    }
                     let k = per_class.entry(class.clone()).or_default();
                     *k += 1;
                     *stats.entry(format!("fail_{}", class)).or_default() += 1;
@@ -1166,7 +1180,8 @@ fn main() {
             let st: Vec<String> = stats.iter().map(|(k, v)| format!("{}:{}", jstr(k), v)).collect();
             writeln!(out, "STATS {{\"cases\":{}{}{}}}", total, if st.is_empty() { "" } else { "," }, st.join(",")).unwrap();
         }
-        "oracle-replay" => {
+        "oracle-replay" | "replay-c11" | "replay-c10" => {
+            let prop = sub.strip_prefix("replay-").unwrap_or("");
             let mut fails = vec![];
             let mut stats = BTreeMap::new();
             for c in stdin_cases() {
@@ -1174,7 +1189,10 @@ fn main() {
                 oracle_scn(&c.id, &s, &mut fails, &mut stats);
             }
             for f in &fails {
-                writeln!(out, "FAIL {}", f).unwrap();
+                let class = f.split("::").next().unwrap().trim().to_string();
+                if class_of_property(&class, prop) {
+                    writeln!(out, "FAIL {}", f).unwrap();
+                }
             }
         }
         x => panic!("unknown subcommand {}", x),
